@@ -235,10 +235,11 @@ func runC12(c *Ctx, r *Run) {
 		r.Analysed(name)
 		ok := false
 		for _, ret := range acceptReturns(dec) {
-			if call, isCall := ret.Results[0].(*ssa.Call); isCall {
+			// (through a helper of the key that holds the computation: `return sk.decUnit(ct.c), nil`)
+			if call, isCall := resultThroughHelpers(ret.Results[0]).(*ssa.Call); isCall {
 				if o := calleeObj(call); o != nil && o.Name() == "SetModSymmetric" {
 					a := argsOf(call)
-					if len(a) == 2 && containsField(paramFields(dec, a[1]), "recv.n") {
+					if len(a) == 2 && containsField(paramFieldsUp(a[1]), "recv.n") {
 						ok = true
 					}
 				}
